@@ -19,9 +19,12 @@ CLAIM = (
     "4*ceil(n/3), for n in 0..600); (3) PATTERN-FIX: every `pattern` keyword is fix_pattern(<PatternConstraint>.pattern) under a guard "
     "admitting only STR, the fix_pattern parameter is threaded unchanged through every call, execute() passes fix_pattern_for_utf16, "
     "and that function is parse -> fix_for_utf16_regex_in_place -> render on the same tree; (4) TYPE-MAP: the JSON type of each "
-    "PrimitiveType equals the JSON Schema type of what the SDKs write; (5) errors are never dropped (ERR1-3, RET-XOR) in jsonschema/main.py."
+    "PrimitiveType equals the JSON Schema type of what the SDKs write; (5) errors are never dropped (ERR1-3, RET-XOR) in jsonschema/main.py; (6) the UTF-16 "
+    "rewriting itself (surrogate arithmetic, range decomposition, quantifiers, complement guard) as decided by the rules of C17, run here too."
     " SKIPS: the loops of the functions in scope have no more `continue`, `break` or in-loop `return` statements than the reference "
     "read on the unchanged tree (baselines/skips.json): a new skip means elements that were handled are no longer handled."
+    " ARITY: the matchers of the schema inference read `node.values[i]` / `node.args[i]` only after establishing the exact number of "
+    "operands (an ignored extra operand makes the inferred constraint stronger than the invariant)."
 )
 NOTE = (
     "Oracles: base64 length 4*ceil(n/3) (RFC 4648 with padding, which all SDKs emit); the five-row JSON type table. Not decided: "
@@ -65,6 +68,10 @@ def run(ctx) -> None:
     check_pattern_fix(ctx)
     check_type_map(ctx)
     check_p_cover(ctx)
+    # the UTF-16 rewriting of patterns (anchor parse/retree/_fix.py) is decided by the rules of C17, which are run here as well:
+    # a wrong piece in the surrogate decomposition makes the schema reject valid text
+    from . import c17 as _c17
+    _c17.run(ctx)
     for f in mod.functions.values():
         err.check_err12(ctx, f, "ERR1", "ERR1v", "ERR2")
         err.check_err3(ctx, f, "ERR3")
@@ -80,6 +87,12 @@ def run(ctx) -> None:
         if _m.name == "aas_core_codegen.jsonschema.main":
             for _f in _m.functions.values():
                 _skips.check_skips(ctx, _f, "SKIPS", _base)
+    ctx.rule("ARITY", "matchers of the inference read a fixed number of operands only after establishing exactly that arity", floor=4)
+    from ..rules import arity as _arity
+    for _m in ctx.p.modules.values():
+        if _m.name.startswith("aas_core_codegen.infer_for_schema"):
+            for _f in _m.functions.values():
+                _arity.check_arity(ctx, _f, "ARITY")
 
 
 def _kind_of_class(ctx, module):
